@@ -374,7 +374,11 @@ func (t *Tree) internalDelete(subpath []string, condition func(interface{}) bool
 			// progeny leaves.
 			var allLeaves [][]string
 			for k, v := range b {
+				// Leaf handles retained by callers lock only their own node, so
+				// every visited node is locked, not just the root.
+				v.mu.Lock()
 				del, leaves := v.internalDelete(subpath, condition, f, retDeletedPaths)
+				v.mu.Unlock()
 				if retDeletedPaths {
 					leaf := []string{k}
 					for _, l := range leaves {
@@ -405,7 +409,9 @@ func (t *Tree) internalDelete(subpath []string, condition func(interface{}) bool
 	if b, ok := t.leafBranch.(branch); ok {
 		// Continue to recurse on subpath while it matches nodes in the Tree.
 		if br := b[subpath[0]]; br != nil {
+			br.mu.Lock()
 			delBr, allLeaves := br.internalDelete(subpath[1:], condition, f, retDeletedPaths)
+			br.mu.Unlock()
 			if retDeletedPaths {
 				leaf := []string{subpath[0]}
 				// Prepend branch node name to all progeny leaves of branch.
